@@ -96,7 +96,7 @@ TsRefused(i) == HasEnd(i) /\ Rec[EndIdx(i)].res = "err" /\ Rec[EndIdx(i)].kind =
                 /\ Rec[EndIdx(i)].rulehint = "date"
 FormKindOf(i, rr) ==
     IF rr.err.kind = "TooLong"
-    THEN (IF HasEnd(i) /\ Rec[EndIdx(i)].kind \in AllKinds /\ Status(Rec[EndIdx(i)].kind) = 400
+    THEN (IF HasEnd(i) /\ Rec[EndIdx(i)].kind \in AllKinds \ {"MissingAuthenticationToken", "IncompleteSignature"} /\ Status(Rec[EndIdx(i)].kind) = 400
           THEN Rec[EndIdx(i)].kind ELSE "InvalidBodyEncoding")
     ELSE IF rr.err.rule = 3 THEN rr.err.kind ELSE "InvalidBodyEncoding"
 
@@ -251,7 +251,10 @@ TrEnd ==
 
 \* ---- stage events: exposed state must equal the specification's; the machine does not move
 ErrIs(e, kind) == e.res = "err" /\ e.kind = kind /\ e.code = Code(kind) /\ e.status = Status(kind)
-TooLongOk(e) == e.res = "err" /\ e.kind \in AllKinds /\ Status(e.kind) = 400 /\ e.status = 400 /\ e.code = Code(e.kind)
+\* (any 400 kind that says "the request is malformed"; the two kinds that mean "no / incomplete authentication" are what
+\*  a request gets that was NOT refused here, so they do not count as this refusal)
+TooLongOk(e) == e.res = "err" /\ e.kind \in AllKinds \ {"MissingAuthenticationToken", "IncompleteSignature"}
+                /\ Status(e.kind) = 400 /\ e.status = 400 /\ e.code = Code(e.kind)
 StageOk(e) ==
     CASE e.ev = "StageCanon" ->
             IF r.err.rule \in {1, 2, 3}
